@@ -154,6 +154,38 @@ def run(ctx: Ctx) -> None:
             elif not torch.allclose(gW, gWr, rtol=1e-11, atol=1e-13):
                 ctx.violation("C06:branch-weight-grad", "branch weight gradient is not the unattenuated one", key)
 
+    # ---- grad mode and gradient layout: the forward value is the same under torch.no_grad(); an upstream gradient that is
+    #      an expanded (stride-0) view gives the same input gradient as its contiguous copy
+    for ci in range(10 if quick else 200):
+        tau = math.exp(rng.uniform(math.log(1e-2), math.log(1e2)))
+        key = {"grad_mode_and_layout": True, "tau": tau, "via": "apply" if ci % 2 else "split-add"}
+        ctx.count(key, bucket="grad-mode")
+        W = torch.randn(5, 5, dtype=dt)
+        fb = lambda z: torch.tanh(z @ W)  # noqa: E731
+
+        def layer(z):
+            if ci % 2:
+                return U.residual_apply(fb, z, tau)
+            r_, s_ = U.residual_split(z, tau)
+            return U.residual_add(fb(r_), s_, tau)
+
+        with ctx.guard("C06:grad-mode", key):
+            x0 = torch.randn(4, 5, dtype=dt)
+            xg = x0.clone().requires_grad_(True)
+            y = layer(xg)
+            with torch.no_grad():
+                y_ng = layer(x0.clone())
+            with torch.inference_mode():
+                y_im = layer(x0.clone())
+            if not torch.equal(y.detach(), y_ng) or not torch.equal(y.detach(), y_im):
+                ctx.violation("C06:no-grad-forward", "the layer computes a different value under no_grad / inference_mode", key,
+                              float((y.detach() - y_ng).abs().max()))
+            up = torch.randn(1, 5, dtype=dt).expand(4, 5)
+            (g1,) = torch.autograd.grad(y, xg, up, retain_graph=True)
+            (g2,) = torch.autograd.grad(y, xg, up.contiguous())
+            if not torch.allclose(g1, g2, rtol=1e-12, atol=0):
+                ctx.violation("C06:expanded-upstream", "the input gradient depends on the memory layout of the upstream gradient", key)
+
     # ---- the branch works in place on what it is given (F.silu(t, inplace=True), t.mul_(c)): split hands it its own
     #      tensor, so neither the skip stream nor the caller's x may change, with or without requires_grad on x
     for ci in range(12 if quick else 200):
